@@ -76,6 +76,7 @@ Inductive qtemplate :=
 | QXattrRev (v : string) (* ... WHERE xattrs->>'$._sync.rev' = $v ORDER BY id *)
 | QSync         (* SELECT json_quote(id) AS id, xattrs->'$._sync' AS s FROM $_keyspace ORDER BY id *)
 | QLast2        (* SELECT json_quote(id) AS id FROM $_keyspace ORDER BY id DESC LIMIT 2 *)
+| QBodyAEq (n : N)   (* ... WHERE CASE WHEN json_valid(body) THEN body->>'$.a' END = $n ORDER BY id, the argument bound as an unsigned integer *)
 | QSyncFirst.   (* SELECT xattrs->'$._sync' AS s, json_quote(id) AS id FROM $_keyspace ORDER BY id : the leading column is NULL
                    (and left out of the row) for a document without that xattr *)
 
@@ -223,6 +224,16 @@ Definition body_a_is_1 (body : string) : bool :=
   | _ => false
   end.
 
+Definition body_a_eq (n : N) (body : string) : bool :=
+  match jparse body with
+  | Some (JObj m) => match obj_get "a" m with
+                     | Some (JNum false x) => x =? n
+                     | Some (JBool b) => (if b then 1 else 0) =? n
+                     | _ => false
+                     end
+  | _ => false
+  end.
+
 Definition sync_rev (xs : list (string * string)) : option string :=
   match alookup String.eqb "_sync" xs with
   | Some v => match jparse v with
@@ -247,6 +258,7 @@ Definition eval_query (q : qtemplate) (docs : list qdoc) : list string :=
                            | None => row_id (fst (fst d))
                            end) sorted
   | QLast2 => map (fun d => row_id (fst (fst d))) (firstn 2 (rev sorted))
+  | QBodyAEq n => map (fun d => row_id (fst (fst d))) (filter (fun d => body_a_eq n (snd (fst d))) sorted)
   | QSyncFirst => map (fun d => match alookup String.eqb "_sync" (snd d) with
                                 | Some v => ("{""s"":" ++ v ++ ",""id"":" ++ quote (fst (fst d)) ++ "}")%string
                                 | None => row_id (fst (fst d))
@@ -279,7 +291,8 @@ Definition num_prop (j : json) (k : string) : option json :=
    0: if (doc is an object with a numeric a) emit(doc.a, meta.id)
    1: emit(meta.id, null)
    2: if (meta.xattrs && meta.xattrs._sync !== undefined) emit(meta.id, meta.xattrs._sync)
-   3: if (doc is an object with a numeric a) { emit([doc.a, 1], null); emit([doc.a, meta.id], null) }
+   3: if (doc is an object with a numeric a) { emit([doc.a, 1], null); emit([doc.a, meta.id], null); emit([doc.a, 1], "dup") }
+      (the same key twice for one document)
    4: if (doc is an object with a string s) emit(doc.s, null)                                              *)
 Definition str_prop (j : json) (k : string) : option json :=
   match j with
@@ -298,7 +311,10 @@ Definition mapfn (id : N) (key : string) (r : row) : list (json * json) :=
              | Some v => match jparse v with Some j => [(JStr key, j)] | None => [] end
              | None => []
              end
-      | 3 => match num_prop doc "a" with Some a => [(JArr [a; JNum false 1], JNull); (JArr [a; JStr key], JNull)] | None => [] end
+      | 3 => match num_prop doc "a" with
+             | Some a => [(JArr [a; JNum false 1], JNull); (JArr [a; JStr key], JNull); (JArr [a; JNum false 1], JStr "dup")]
+             | None => []
+             end
       | _ => match str_prop doc "s" with Some x => [(x, JNull)] | None => [] end
       end
   end.
